@@ -14,10 +14,15 @@ import (
 	"math/rand"
 	"net/http"
 	"os"
+	"runtime"
 	"sort"
 	"strconv"
 	"strings"
 	"sync"
+	"sync/atomic"
+	"time"
+
+	"github.com/jub0bs/cors"
 )
 
 // ---------------------------------------------------------------- response recorder
@@ -142,6 +147,97 @@ func (t *tracer) emit(ev map[string]any) {
 func (t *tracer) close() {
 	t.w.Flush()
 	t.f.Close()
+}
+
+// ---------------------------------------------------------------- watchdog
+// A driver whose main goroutine blocks INSIDE the library (a lock that is never released, a call that never returns) would run
+// into the harness time-out and end without a verdict. When no event has been recorded for `quiet`, the watchdog looks at the
+// goroutine stacks twice, three seconds apart; if the same goroutine is blocked in the same function of the library both times it
+// (1) sends one plain request through the middleware used last, to see whether requests still get through, (2) hands a Hang
+// event to `finish`, which records it and ends the run in order: the trace recorded so far - and the event - are judged by the
+// trace specification.
+var lastMW atomic.Pointer[cors.Middleware]
+
+var blockedStates = []string{"sync.", "semacquire", "chan receive", "chan send", "select"}
+
+// blockedInLibrary returns "goroutine N|function" for the first goroutine that is blocked with a library frame on its stack.
+func blockedInLibrary() string {
+	buf := make([]byte, 4<<20)
+	buf = buf[:runtime.Stack(buf, true)]
+	for _, g := range strings.Split(string(buf), "\n\n") {
+		lines := strings.Split(g, "\n")
+		if len(lines) < 2 || !strings.HasPrefix(lines[0], "goroutine ") {
+			continue
+		}
+		i := strings.IndexByte(lines[0], '[')
+		if i < 0 {
+			continue
+		}
+		state, blocked := lines[0][i+1:], false
+		for _, b := range blockedStates {
+			blocked = blocked || strings.HasPrefix(state, b)
+		}
+		if !blocked || strings.Contains(g, "main.(*tracer).watchdog") {
+			continue
+		}
+		for _, ln := range lines[1:] {
+			if strings.HasPrefix(ln, "github.com/jub0bs/cors") {
+				if k := strings.IndexByte(ln, '('); k > 0 && !strings.HasPrefix(ln[k:], "(*") {
+					ln = ln[:k]
+				} else if k := strings.LastIndexByte(ln, '('); k > 0 {
+					ln = ln[:k]
+				}
+				return strings.Fields(lines[0])[1] + "|" + ln
+			}
+		}
+	}
+	return ""
+}
+
+func (t *tracer) watchdog(quiet time.Duration, finish func(hang map[string]any)) {
+	go func() {
+		last, since := -1, time.Now()
+		for {
+			time.Sleep(time.Second)
+			t.mu.Lock()
+			n := t.n
+			t.mu.Unlock()
+			if n != last {
+				last, since = n, time.Now()
+				continue
+			}
+			if time.Since(since) < quiet {
+				continue
+			}
+			first := blockedInLibrary()
+			time.Sleep(3 * time.Second)
+			if second := blockedInLibrary(); first == "" || second != first {
+				since = time.Now() // busy, not blocked; or not the library's doing
+				continue
+			}
+			where := first[strings.IndexByte(first, '|')+1:]
+			reqHang := false
+			if m := lastMW.Load(); m != nil {
+				done := make(chan bool, 1)
+				go func() {
+					defer func() { recover() }()
+					m.Wrap(okHandler).ServeHTTP(newRec(), newReq("GET", http.Header{}))
+					done <- true
+				}()
+				select {
+				case <-done:
+				case <-time.After(5 * time.Second):
+					reqHang = true
+				}
+			}
+			what := "a call of " + where + " has not returned (no progress for " + quiet.String() + ")"
+			if reqHang {
+				what += "; a plain GET request sent through the same middleware afterwards does not get through either (5 s)"
+			}
+			finish(map[string]any{"ev": "Hang", "by": "watchdog", "where": where, "reqhang": reqHang, "what": what, "m": "GET", "req": map[string]any{}, "dbg": false})
+			return
+		}
+	}()
 }
 
 // ---------------------------------------------------------------- misc
